@@ -110,7 +110,9 @@ def run_tlc(module, cfg=None, env=None, workers=16, timeout=900, simulate=None, 
     cfg = cfg or (module + ".cfg")
     meta = tempfile.mkdtemp(prefix="verif-tlc-")
     res = TlcResult()
-    java = ["java", "-XX:+UseParallelGC", "-Xss128m"]
+    # (TLC unpacks its standard modules into a directory of its own under java.io.tmpdir and leaves it behind: point it
+    #  into the private metadir, which is removed afterwards)
+    java = ["java", "-XX:+UseParallelGC", "-Xss128m", "-Djava.io.tmpdir=%s" % meta]
     if heap:
         java.append("-Xmx%s" % heap)
     if dfs:
